@@ -187,6 +187,7 @@ def check_c03(pid, tier, seed, replay):
     # with nothing pending, jumps to a label from its own command ...), levels 0 and 2
     rj = [{"prog": M.retjump_soup(rng, rng.randint(6, 14)), "input": []} for _ in range(90 if quick else 2500)]
     rj += [{"prog": M.fwdjump_family(rng), "input": []} for _ in range(30 if quick else 500)]
+    rj += [{"prog": M.operand_family(rng), "input": []} for _ in range(30 if quick else 800)]
     rj += [{"prog": [M.C(5, 1, 0), M.C(5, 1, 3)] + c["prog"], "input": M.cps("a")} for c in rj[:20 if quick else 500]]
     cpath2 = os.path.join(work, "cases_rj.json")
     M.write_cases(cpath2, rj)
